@@ -70,6 +70,7 @@ type Options struct {
 	Hold          bool            // hold every request until granted
 	ReplyHook     func(c Cmd) []byte // non-nil return value replaces execution and is sent verbatim
 	Registry      *Registry
+	Unknown       map[string]bool // command names this server does not know: answered like Redis >= 5 does, echoing the arguments
 }
 
 // Registry maps type|raw payload bodies to logical values.
@@ -445,6 +446,14 @@ var writeCmds = map[string]bool{}
 
 func (s *Server) handle(st *connState, cmd Cmd) []byte {
 	name := cmd.Name()
+	if s.opt.Unknown[name] {
+		// Redis looks the command up before it checks authentication
+		msg := "ERR unknown command `" + string(cmd.Argv[0]) + "`, with args beginning with: "
+		for _, a := range cmd.Argv[1:] {
+			msg += "`" + string(a) + "`, "
+		}
+		return rErr(msg)
+	}
 	if !st.authed && name != "auth" {
 		return rErr("NOAUTH Authentication required.")
 	}
